@@ -641,7 +641,8 @@ def conc_cases(max_pre, gran):
                 else:
                     ops.append([kind, draw(keys)])
             threads.append(ops)
-        pre = draw(st.lists(st.tuples(st.integers(0, max_delay), st.integers(0, 1)).map(list), min_size=0, max_size=max_pre))
+        npre = draw(st.integers(1, max_pre)) if draw(st.integers(0, 7)) else 0
+        pre = [[draw(st.integers(0, max_delay if j == 0 else max_delay * 2 // 3)), draw(st.integers(0, 1))] for j in range(npre)]
         forced = draw(st.lists(st.integers(0, 2), min_size=0, max_size=4))
         return {"kind": "conc", "cap": cap, "init": init, "gran": gran, "threads": threads,
                 "first": draw(st.integers(0, nthreads - 1)), "pre": pre, "forced": forced}
